@@ -2,7 +2,15 @@
 """Regenerates MANIFEST.json from checks/registry.json (one entry per claimed property)."""
 import json, os, subprocess
 V = os.path.dirname(os.path.dirname(os.path.abspath(__file__)))
-reg = json.load(open(os.path.join(V, "checks", "registry.json")))
+reg = {"claimed": {}, "unclaimed": {}, "notes": "Model-based verification with explicit TLA+ specifications (spec/), TLC, and a Go conformance harness (harness/) that replays TLC behaviours into the code and records traces for TLC. See DESIGN.md."}
+rd = os.path.join(V, "checks", "registry.d")
+for f in sorted(os.listdir(rd)):
+    if f.endswith(".json"):
+        d = json.load(open(os.path.join(rd, f)))
+        if d.get("not_applicable"):
+            reg["unclaimed"][f[:-5]] = d["not_applicable"]
+        else:
+            reg["claimed"][f[:-5]] = d
 props = [json.loads(l) for l in open(os.path.join(V, "properties.jsonl"))]
 hooks = subprocess.run(["git", "-C", "/repo", "log", "--format=%H %s"], stdout=subprocess.PIPE, text=True).stdout.splitlines()
 hook_commits = [l.split()[0] for l in hooks if " verif hooks:" in " " + l.split(" ", 1)[1] or l.split(" ", 1)[1].startswith("verif hooks")]
